@@ -297,7 +297,7 @@ class NamespaceClass(Namespace[symtable.Class]):
             if name in comp.target_names:
                 return Name(id=name, ctx=Load())
 
-        if name in self.globals_used_in_comp:
+        if self.comp_stack and name in self.globals_used_in_comp:
             return Name(id=name, ctx=Load())
 
         if name == "__class__":
